@@ -150,7 +150,12 @@ Proof.
   - apply su_section; exact H.
   - destruct (l =? nlabels b); [cbn [fst]; apply su_add_fresh; [reflexivity|]|]; exact H.
   - eapply su_same; [|apply su_add_fresh; [|apply su_add_fresh; [|apply su_add_fresh; [|exact H]]]]; reflexivity.
-  - destruct (cur_func b); exact H.
+  - destruct (cur_func b) as [fl|]; cbn [fst]; [|exact H]. cbn [lpool with_func with_pend].
+    destruct (lpool b) as [[pl pd]|].
+    + match goal with |- secs_unique (with_list (add_node ?n ?bm) _ _ _) =>
+        apply (su_same (add_node n bm)); [reflexivity|apply su_add_fresh; [reflexivity|exact H]] end.
+    + exact H.
+  - destruct (scope =? 0); [destruct (lpool b) as [[? ?]|]|destruct (gpool b) as [[? ?]|]]; exact H.
   - destruct i as [i|]; [destruct (in_range i (active b))|]; exact H.
   - destruct (in_range i (active b)); [|exact H]. cbn [fst]. apply su_remove_range; [lia|exact H].
   - destruct (in_range i (active b)); [|exact H]. destruct (in_range j (active b)); [|exact H]. destruct (Nat.leb i j) eqn:E3; [|exact H].
